@@ -1121,6 +1121,10 @@ func (c1 complexConst) binaryOp(op ast.OperatorType, c2 constant) (constant, err
 		re, _ := n1.r.binaryOp(op, n2.r)
 		im, _ := n1.i.binaryOp(op, n2.i)
 		return re.(boolConst) && im.(boolConst), nil
+	case ast.OperatorNotEqual:
+		re, _ := n1.r.binaryOp(op, n2.r)
+		im, _ := n1.i.binaryOp(op, n2.i)
+		return re.(boolConst) || im.(boolConst), nil
 	case ast.OperatorAddition, ast.OperatorSubtraction:
 		re, _ := n1.r.binaryOp(op, n2.r)
 		im, _ := n1.i.binaryOp(op, n2.i)
@@ -1132,7 +1136,7 @@ func (c1 complexConst) binaryOp(op ast.OperatorType, c2 constant) (constant, err
 		ad, _ := n1.r.binaryOp(op, n2.i)
 		c := complexConst{}
 		c.r, _ = ac.binaryOp(ast.OperatorSubtraction, bd)
-		c.i, _ = bc.binaryOp(ast.OperatorSubtraction, ad)
+		c.i, _ = bc.binaryOp(ast.OperatorAddition, ad)
 		return c, nil
 	case ast.OperatorDivision:
 		if n2.zero() {
@@ -1153,8 +1157,9 @@ func (c1 complexConst) binaryOp(op ast.OperatorType, c2 constant) (constant, err
 		re, _ := ac.binaryOp(ast.OperatorAddition, bd)
 		im, _ := bc.binaryOp(ast.OperatorSubtraction, ad)
 		c := complexConst{}
-		c.r, _ = re.binaryOp(ast.OperatorDivision, s)
-		c.i, _ = im.binaryOp(ast.OperatorDivision, s)
+		// The division of the parts is never the integer division.
+		c.r, _ = asFloatingPoint(re).binaryOp(ast.OperatorDivision, s)
+		c.i, _ = asFloatingPoint(im).binaryOp(ast.OperatorDivision, s)
 		return c, nil
 	}
 	return nil, errInvalidOperation
